@@ -5,6 +5,7 @@ package scen
 import (
 	"fmt"
 	"net/url"
+	"sync/atomic"
 	"time"
 
 	"github.com/aukilabs/hagall-common/messages/hagallpb"
@@ -28,16 +29,25 @@ type C struct {
 	Extra []*d.Event // events of the last window that were not the answer
 }
 
-var connSeq int
+var connSeq atomic.Int64
 
 // Dial opens a connection to a lab SUT.
 func Dial(p *sut.Proc, mods string, flags string) (*C, error) {
-	connSeq++
+	id := int(connSeq.Add(1))
 	q := url.Values{"mods": {mods}}
 	if flags != "" {
 		q.Set("flags", flags)
 	}
-	cl, err := d.Dial(connSeq, p.Addr, q, nil)
+	cl, err := d.Dial(id, p.Addr, q, nil)
+	if err != nil {
+		return nil, err
+	}
+	return &C{Client: cl}, nil
+}
+
+// DialReal opens a connection to the real binary (token in the Authorization header).
+func DialReal(p *sut.Proc, token string) (*C, error) {
+	cl, err := d.Dial(int(connSeq.Add(1)), p.Addr, nil, map[string]string{"Authorization": "Bearer " + token})
 	if err != nil {
 		return nil, err
 	}
